@@ -34,6 +34,15 @@ __CPROVER_ensures(__CPROVER_return_value == d)
 ;
 #endif
 #include "gen/DoEscape.inc"
+/* contract of the block classifier, proved for all blocks in job C09.CopyAndGetEscapMask and used by replacement
+ * inside Quote: copies VEC_LEN bytes, no bit at or above VEC_LEN, and the LOWEST set bit marks a byte that needs an
+ * escape (which is exactly what Quote's ctz consumes; the all-bits statement is the leaf harness) */
+int CopyAndGetEscapMask(const char *src, char *dst)
+__CPROVER_requires(__CPROVER_r_ok(src, VEC_LEN) && __CPROVER_w_ok(dst, VEC_LEN))
+__CPROVER_assigns(__CPROVER_object_upto(dst, VEC_LEN))
+__CPROVER_ensures(((uint64_t)(uint32_t)__CPROVER_return_value >> (VEC_LEN / 2) >> (VEC_LEN / 2)) == 0)
+__CPROVER_ensures(__CPROVER_return_value == 0 || SPEC_NEED_ESCAPE(src[__builtin_ctz((unsigned)__CPROVER_return_value)]))
+;
 #include "gen/CopyAndGetEscapMask.inc"
 #include "gen/MOVE_N_CHARS.inc"
 #include "gen/Quote.inc"
@@ -64,7 +73,7 @@ void h_CopyAndGetEscapMask(void) {
   char *s = malloc(VEC_LEN), *d = malloc(VEC_LEN); __CPROVER_assume(s != NULL && d != NULL);   /* exact read/write extent */
   for (int i = 0; i < VEC_LEN; i++) s[i] = (char)in_buf[i];
   size_t k; __CPROVER_assume(k < VEC_LEN); in_k = k;
-  int m = CopyAndGetEscapMask(s, d);
+  int m = CopyAndGetEscapMask(s, d);      /* (contract above enforced in this job as well) */
   VASSERT(BIT((uint32_t)m, k) == SPEC_NEED_ESCAPE(s[k]), "C09.mask.bits: mask bit i iff byte i needs an escape");
   VASSERT(((uint64_t)(uint32_t)m >> (VEC_LEN / 2) >> (VEC_LEN / 2)) == 0, "C09.mask.width: no mask bit at or above VEC_LEN");
   VASSERT(d[k] == s[k], "C09.mask.copy: the block is copied verbatim");
@@ -84,9 +93,12 @@ void h_DoEscape(void) {
 }
 
 #endif
-/* ---- Quote: unbounded safety/extent (loop contracts), DoEscape by contract ---- */
+/* ---- Quote: function contract (safety, extent, frame), callees by contract; loops unwound up to QBOUND ---- */
 void h_Quote(void) {
-  size_t nb; __CPROVER_assume(nb <= MAXLEN); in_nb = nb;
+#ifndef QBOUND
+#define QBOUND MAXLEN
+#endif
+  size_t nb; __CPROVER_assume(nb <= QBOUND); in_nb = nb;
 #ifdef SANITIZE_PATH
   char *S = malloc(nb); __CPROVER_assume(S != NULL);
   const char *src = S;
